@@ -10,7 +10,7 @@ UNITS_LOCAL = {"C15": [
     Unit("roundtrip", ["harness/C15_roundtrip.cpp"], repo_src=_SRC,
          flags=ASAN, env=ASAN_ENV, engine="seqmc", opt="-O1",
          budget={"quick": 100, "thorough": 900},
-         rule="every sequence of length <= 3 (thorough 4) over 18 typed values {int8, int32, double, a POD struct, strings of length 0/1/40, const char*, vector<int> {} and {1,2,3}, vector<string>, vector<vector<int>>, OwnedArray<int> of 4 (directly and through a const AbstractArray<int>&) and of 0, FixedArray<uint8_t>, ArrayView<double>, FixedArrayView<uint8_t>} written through BufferWriter and WriteSizeCalculator and read back through BufferReader; then every proper prefix length of each stream, read from a heap block of exactly that length. distinct = distinct stream lengths",
+         rule="every sequence of length <= 3 (thorough 4) over 18 typed values {int8, int32, double, a POD struct, strings of length 0/1/40, const char*, vector<int> {} and {1,2,3}, vector<string>, vector<vector<int>>, OwnedArray<int> of 4 (directly and through a const AbstractArray<int>&) and of 0, FixedArray<uint8_t>, ArrayView<double>, FixedArrayView<uint8_t>} written through BufferWriter and WriteSizeCalculator and read back through BufferReader; the same sequence written through a FixedBufferWriter of exactly the predicted size; then every proper prefix length of each stream, read from a heap block of exactly that length. distinct = distinct stream lengths",
          assumptions=_ASSUME + ["an array wrapper is read back as the AbstractArray<T> overload of operator<< documents the format: element count as size_t, then the raw elements (the library has no operator>> for the wrapper types)",
                                 "values are compared field-wise (struct padding is not compared), doubles bit-wise"]),
     Unit("reader", ["harness/C15_cursor.cpp"], repo_src=_SRC,
